@@ -192,6 +192,15 @@ def parts(ctx):
         A(dict(name="bv3-d2", profile=lambda e: P.bv_profile(e, (3,), nsyms=1), depth=2, shards=128,
                mid_ops=_binary_or_less, top_ops=_binary_or_less, max_new=1))
         A(dict(name="bv4-d1", profile=lambda e: P.bv_profile(e, (4,)), depth=1, shards=8))
+    # ---- beyond the small sizes: five-argument n-ary operators; widths 5 and 8 over all constants [thorough];
+    # ---- widths 33 and 65 over a pool of boundary values
+    A(dict(name="nary5-d1", profile=P.nary5_profile, depth=1, shards=16, dom={INT: (-1, 0, 2), REAL: (Fraction(-1), Fraction(0), Fraction(1, 2))}))
+    for w in (33, 65):
+        A(dict(name="bv%d-d1" % w, profile=(lambda w: lambda e: P.widebv_profile(e, w))(w), depth=1, shards=8,
+               dom=P.widebv_dom(w)))
+    if not q:
+        A(dict(name="bv5-d1", profile=lambda e: P.bv_profile(e, (5,)), depth=1, shards=32))
+        A(dict(name="bv8-d1", profile=lambda e: P.bv_profile(e, (8,), nsyms=0), depth=1, shards=256))
     # ---- strings
     A(dict(name="str-d1", profile=lambda e: P.str_profile(e, strs=("", "a", "ab", "abc", "12", "-5", " 1", "1_0", "+3",
                                                                       "\u0663", "1\u0663", "\u00b2", "\uff11")),
